@@ -357,6 +357,28 @@ def r8_insert_fails_only_as_prechecked(ctx):
     R.check(bool(ins) and ins <= pre, "C13.R8", "insert-refuses-only-what-precheck-refuses", "verify_and_insert refuses for the reasons verify_method_name refuses (%s)" % sorted(pre), "verify_and_insert can refuse with %s although the up-front check (verify_method_name: %s) accepted the name: a subscription registration then fails after its unsubscribe method was registered, leaving the module changed" % (sorted(ins - pre), sorted(pre)), None)
 
 
+def r10_lookup_is_one_exact_map_access(ctx):
+    """a name is bound exactly when it is a key of the table: the two lookups (Methods::method for in-process calls,
+    Methods::method_with_name for the server's dispatcher) are one exact HashMap access each - no second, laxer search
+    (iteration with a case-insensitive / prefix comparison) after a miss, which would dispatch an unbound name to a handler
+    bound under another spelling and make the two entry points disagree."""
+    F, R = ctx.F, ctx.R
+    for nm in ("method", "method_with_name"):
+        b = F.one(r"^jsonrpsee_core::server::rpc_module::Methods::%s$" % nm)
+        bodies = F.nested(b)
+        acc = []
+        other = []
+        for x in bodies:
+            R.fn(x)
+            for c in x.calls:
+                n_ = c.name() or ""
+                if re.search(r"HashMap::<.*>::(get|get_key_value)$", n_):
+                    acc.append(c)
+                elif re.search(r"HashMap::<.*>::(iter|keys|values|into_iter|contains_key|iter_mut)$|Iterator>?::(find|find_map|position|any|filter)$|str::<impl str>::(eq_ignore_ascii_case|starts_with|ends_with|contains|to_\w+case)$", n_):
+                    other.append(c)
+        R.check(len(acc) == 1 and not other, "C13.R10", "%s:one-exact-access" % nm, "Methods::%s is one exact map access" % nm, "Methods::%s is not a single exact map access (%d exact accesses, also: %s): a name that is not bound can be dispatched to the handler of a differently spelled name, and the server's and the in-process dispatcher disagree about which names exist" % (nm, len(acc), sorted({short(c.name()) for c in other})), where(other[0]) if other else "%s:%d" % (b.file, b.lo))
+
+
 SILENT = r"hash_map::Entry::<.*>::(or_insert|or_insert_with|or_insert_with_key|or_default|and_modify|insert_entry)$|hash_map::OccupiedEntry::<.*>::(insert|get_mut|into_mut|remove|remove_entry)$|HashMap::<.*>::(get_mut|values_mut|iter_mut|retain|clear|get_many_mut|get_disjoint_mut)$|Extend<.*>>::extend$|HashMap::<.*>::extend$"
 
 
@@ -404,7 +426,7 @@ def rgen_generated_registrations(ctx):
     return c17.w_rules(ctx)
 
 
-LIB_RULES = [r1_insert_after_verify, r2_all_or_nothing, r3_copy_on_write, r4_dispatch_and_remove, r5_not_found_iff_unbound, r6_sibling_registrars, r7_names_spelled_alike, r8_insert_fails_only_as_prechecked, r9_no_silent_table_writes]
+LIB_RULES = [r1_insert_after_verify, r2_all_or_nothing, r3_copy_on_write, r4_dispatch_and_remove, r5_not_found_iff_unbound, r6_sibling_registrars, r7_names_spelled_alike, r8_insert_fails_only_as_prechecked, r9_no_silent_table_writes, r10_lookup_is_one_exact_map_access]
 CONFIGS_QUICK = ["libs-all", "corpus"]
 CONFIGS_THOROUGH = ["libs-all", "facade-full", "corpus"]
 
